@@ -354,6 +354,16 @@ def run(model: Model, rep: Report) -> None:
         if s in kinds:
             okk = bool(toks) and all(any(tk.startswith(k) for k in kinds[s]) for tk in toks)
             r6.check(okk, site(sc.f), sc.f.qualname, f"{s} emits {kinds[s]}", why=f"emits {sorted(toks)}")
+    # branch conditions of every transition (reviewed reference in spec/pdf_lexical.json)
+    refc = spec.get("scanner_conditions", {})
+    for s, want_c in sorted(refc.items()):
+        sc = fsm.scanners.get(s)
+        if sc is None or s == "_parse_main":
+            continue  # the dispatch of _parse_main is decided semantically (byte by byte) by C01-R1
+        got_c = sorted([[t.next_state, [" ".join(c.split()) for c in t.conds]] for t in sc.transitions])
+        extra = [x for x in got_c if x not in want_c]
+        missing = [x for x in want_c if x not in got_c]
+        r6.check(not extra and not missing, site(sc.f), sc.f.qualname, f"{s}: each transition is taken under the reviewed condition", why=f"changed transitions: now {extra[:2]} / reference {missing[:2]}")
     # keyword scanner maps true/false to booleans
     kw = model.func(BASE + "._parse_keyword")
     m: Dict[bytes, object] = {}
